@@ -36,11 +36,42 @@ theorem performCheck_inv {cfg : LCfg} {sub : ℕ → α → GInput → M SubRes}
     by_cases hl : cfg.grouping.length = student.length
     · simp only [hl, bne_self_eq_false, Bool.false_eq_true, ↓reduceIte] at h
       refine ⟨by simp [hg', hl], ?_⟩
-      cases hord : cfg.ordered <;> simp only [hord, Bool.false_eq_true, ↓reduceIte] at h ⊢
-      all_goals (split at h; · cases h)
-      all_goals (rename_i il hil; simp only [Except.ok.injEq] at h; exact ⟨il, by rw [← h]; simp [gmap, hg'], by simpa [gmap, hg'] using hil⟩)
+      by_cases hm : groupsMatch cfg.grouping answers.length = true
+      · simp only [hm, Bool.not_true, Bool.false_eq_true, ↓reduceIte] at h
+        cases hord : cfg.ordered <;> simp only [hord, Bool.false_eq_true, ↓reduceIte] at h ⊢
+        all_goals (split at h; · cases h)
+        all_goals (rename_i il hil; simp only [Except.ok.injEq] at h; exact ⟨il, by rw [← h]; simp [gmap, hg'], by simpa [gmap, hg'] using hil⟩)
+      · have : (!groupsMatch cfg.grouping answers.length) = true := by simpa using hm
+        simp [this, throw, throwThe, MonadExceptOf.throw] at h
     · have : (cfg.grouping.length != student.length) = true := by simpa using hl
       simp [this, throw, throwThe, MonadExceptOf.throw] at h
+
+/-- **One answer per group.** With a grouping, a check that returns had exactly as many answers as groups (otherwise it is
+    refused with a ConfigError — as repaired by the `fix:` commit F11; before, a mismatch led to missing entries and a raw
+    AttributeError) -/
+theorem performCheck_groups_match {cfg : LCfg} {sub : ℕ → α → GInput → M SubRes} {answers : List α} {student : List String} {o : LOut}
+    (hg : cfg.grouping.isEmpty = false) (h : performCheck cfg sub answers student = .ok o) :
+    groupsMatch cfg.grouping answers.length = true := by
+  unfold performCheck at h
+  simp only [bind, Except.bind, pure, Except.pure, hg, Bool.not_false, ↓reduceIte] at h
+  by_cases hl : cfg.grouping.length = student.length
+  · simp only [hl, bne_self_eq_false, Bool.false_eq_true, ↓reduceIte] at h
+    by_cases hm : groupsMatch cfg.grouping answers.length = true
+    · exact hm
+    · have : (!groupsMatch cfg.grouping answers.length) = true := by simpa using hm
+      simp [this, throw, throwThe, MonadExceptOf.throw] at h
+  · have : (cfg.grouping.length != student.length) = true := by simpa using hl
+    simp [this, throw, throwThe, MonadExceptOf.throw] at h
+
+/-- a mismatch between the number of answers and the number of groups is refused with a configuration error -/
+theorem groups_mismatch_refused {cfg : LCfg} {sub : ℕ → α → GInput → M SubRes} {answers : List α} {student : List String}
+    (hg : cfg.grouping.isEmpty = false) (hl : cfg.grouping.length = student.length)
+    (hm : groupsMatch cfg.grouping answers.length = false) :
+    ∃ msg, performCheck cfg sub answers student = .error (Err.config msg) := by
+  unfold performCheck
+  simp only [bind, Except.bind, hg, Bool.not_false, ↓reduceIte, hl, bne_self_eq_false, Bool.false_eq_true, hm, throw, throwThe,
+    MonadExceptOf.throw, pure, Except.pure]
+  exact ⟨_, rfl⟩
 
 /-- **Ordered**: the k-th (grouped) result is exactly what the k-th subgrader returns for the k-th answer and
     the k-th (grouped) input. -/
